@@ -8,7 +8,8 @@ VERIF = os.path.dirname(os.path.dirname(os.path.abspath(__file__)))
 
 # id -> dict(level, text, note, technique, design_ref, engine)
 MICRO_TEXT = (" Micro level: the same handlers under the cooperative scheduler (lock acquisitions, channel operations and goroutine "
-              "starts of the rewritten proxy_streams.go / shard_manager.go / admin_stream_transfer.go are scheduling points) with a short "
+              "starts of the rewritten proxy_streams.go / shard_manager.go / admin_stream_transfer.go and every Send on a fake stream are "
+              "scheduling points; scenarios incl. a watermark broadcast to two targets whose proxy id counters differ) with a short "
               "environment script as one more thread, so every environment step is taken at every scheduling point; every schedule with at "
               "most 2 (thorough 3) departures from the default schedule is executed (delay bounding), followed by the closing phase.")
 
@@ -45,7 +46,9 @@ CLAIMED = {
              "watermark returned on that stream) and bounded liveness: from EVERY reached state the deterministic fair closing phase (targets "
              "complete and acknowledge everything, sources send their periodic watermark, 1 s passes; at most 6 rounds) must end with every "
              "source having received an ack equal to its final high watermark. Includes a slow target whose hand-off queue (capacity 1) is "
-             "full when the watermark is broadcast and a target that never receives a task." + MICRO_TEXT,
+             "full when the watermark is broadcast and a target that never receives a task. The safety half (ack non-decreasing, never above "
+             "the largest high watermark returned on that stream) is additionally evaluated over the fault scenarios of C04 (reconnected "
+             "source streams start with a lower high watermark than targets may re-acknowledge)." + MICRO_TEXT,
         note=ROUTE_NOTE, technique="explicit-state BFS + bounded fair suffix from every reachable state (virtual time)",
         design_ref="5/C03", engine="A-macro"),
     "C04": dict(
@@ -54,7 +57,9 @@ CLAIMED = {
              "from a source breaks, the stream a source initiated breaks; followed by every order of reconnections, resends from the "
              "acknowledged level and acknowledgements. Oracle across incarnations: a task below an ack must have been confirmed by some target "
              "stream incarnation. One genuine defect is recorded as a known finding (tasks in flight on a target stream that ends are later "
-             "acknowledged); any other early ack is a violation.",
+             "acknowledged); any other early ack is a violation. The oracle classifies why a task below an ack is unconfirmed (live target "
+             "has not confirmed / forwarded only on ended streams / stranded in the hand-off queue of an ended sender / nowhere) by "
+             "looking into the hand-off channels every sender ever registered." + MICRO_TEXT,
         note=ROUTE_NOTE + " Macro level: faults at quiescent states, <=1 per path in quick, <=2 in thorough; micro level: one fault per script.",
         technique="explicit-state BFS over event orders x fault positions + delay-bounded DFS with faults at every scheduling point, on the implementation",
         design_ref="5/C04", engine="A-macro"),
@@ -67,6 +72,9 @@ CLAIMED = {
              "handleStream -> StreamForwarder.Run in a synctest bubble. Oracles: each side received a prefix of what the other emitted, all of "
              "it while nothing has ended; after an ending the handler returns within the 1 s CloseSend guard, the source stream is half-closed "
              "or cancelled and its context cancelled, and no goroutine of the bubble is left blocked (leak detection by the bubble itself). "
+             "Fourth family: a sibling stream with the same shard metadata is open next to the stream under test and may end while it keeps "
+             "relaying (the global stream tracker's locks are rewritten to parking shims, so a relay blocked on a lock nobody releases is "
+             "an observable state). "
              "Micro: StreamForwarder.Run's two pump goroutines and the shutdown cascade under the cooperative scheduler (rewritten "
              "admin_stream_transfer.go: channel operations, goroutine starts, locks are scheduling points) with an environment thread that "
              "emits one response, one sync-state and one ending; all schedules with <=2 (thorough 3) departures from the default schedule, "
@@ -84,7 +92,10 @@ CLAIMED = {
              "NewClusterConnection on loopback between two generic fake clusters for the square 1..8 (1..12 thorough), DescribeCluster "
              "through both servers and one real gRPC stream per LCM shard id and direction. Oracle: reported count = lcm (independent gcd by "
              "subtraction), serving shard = ((s-1) mod count)+1, initiator shard = s, cluster ids preserved, no panic, exactly one forwarded "
-             "stream; hash consistency checked with Temporal's own WorkflowIDToHistoryShard.",
+             "stream; hash consistency checked with Temporal's own WorkflowIDToHistoryShard. Streams are opened as a real Temporal "
+             "initiator does (client shard = its own shard ((s-1) mod its count)+1, server shard = s); at the wiring level a "
+             "failover-version-increment translation is configured on one side, the other or both (by parity of the pair) next to the "
+             "shard-count override.",
         note="Trusted: the generic fake backend, loopback TCP. Large pairs are covered at boundary ids and a stride only.",
         technique="bounded-exhaustive enumeration of configurations x shard ids on the implementation (handler and end-to-end wiring)",
         design_ref="5/C07", engine="B-enum"),
@@ -108,7 +119,9 @@ CLAIMED = {
              "search-attribute translators: result equals the reference (only exact matches change) and messages with nothing to map are "
              "byte-identical after deterministic marshalling (blobs not re-encoded). (b) All one-to-one mappings over {a,b,c,d} with <=2 "
              "(thorough 3) pairs incl. identity pairs and chains x request/response roots x names a..e: one translation equals the mapping "
-             "applied exactly once; response-after-request restores the message for unambiguous names. (c) Direction: every unary method of "
+             "applied exactly once; response-after-request restores the message for unambiguous names. (b2) All one-to-one search-attribute "
+             "mappings over {a,b,c,d} (swaps, chains, cycles) x every non-colliding key set x {typed container, bare map}: one translation "
+             "equals the simultaneous renaming with values following their keys, the inverse restores the original. (c) Direction: every unary method of "
              "both services through both servers of a real ClusterConnection (loopback TCP, generic fake clusters) with fully populated "
              "messages, namespace names and search-attribute keys compared with the reference translation of the right direction. (d) Every "
              "mapping list of length <=2 (thorough 3) over {a,b,c}x{a,b,c}, for namespaces and for search attributes: NewClusterConnection "
@@ -131,14 +144,16 @@ CLAIMED = {
         design_ref="5/C14", engine="B-enum"),
     "C15": dict(
         level="exploration",
-        text="Bounded-exhaustive enumeration on a real ClusterConnection (loopback TCP) with an ACL policy and a generic fake local cluster that "
+        text="Bounded-exhaustive enumeration on a real ClusterConnection (remote side on TCP, mux-server and mux-client transports over loopback; "
+             "for the mux transports the harness owns the peer end of the yamux session) with an ACL policy and a generic fake local cluster that "
              "records every call: allow-list families {empty=unrestricted, full, non-existent names only, singleton and complement-of-singleton "
              "for a fixed selection of admin methods (all 68 in thorough)} x EVERY method of AdminService and WorkflowService from the service "
-             "descriptors (the streaming method opened as a stream) x {no header, translation-bypass header}: a method outside a non-empty "
+             "descriptors (the streaming method opened as a stream) x {no header, translation-bypass header, intra-proxy marker headers, both}: "
+             "a method outside a non-empty "
              "list is answered PermissionDenied and the local cluster records nothing, a listed method is forwarded exactly once, "
              "Register/DeprecateNamespace are always refused under a policy; every unary admin method through the outbound server is forwarded.",
-        note="Transport: TCP only. The mux transports build their gRPC server through the same buildProxyServer/makeServerOptions with the same "
-             "serverConfiguration; they are not driven end to end (needs a yamux peer) - see DESIGN.md.",
+        note="Quick: the mux transports get the base families and the singleton / complement lists of DescribeCluster and "
+             "StreamWorkflowReplicationMessages; thorough: every family on every transport.",
         technique="bounded-exhaustive enumeration of methods x allow-list families on a running proxy",
         design_ref="5/C15", engine="B-enum"),
     "C16": dict(
@@ -146,7 +161,7 @@ CLAIMED = {
         text="Bounded-exhaustive enumeration. Chain level: every request type of both services x every structural namespace path (incl. "
              "blob-encoded) x {forbidden here only, allowed here + forbidden at the next path, allowed everywhere} x {bypass header, none} "
              "through ACL alone and translation->ACL in the order makeServerOptions installs them, plus remote names mapping to an allowed / "
-             "forbidden local name; all other namespace fields hold allowed names so that 'here only' is not vacuous. Wiring level: real "
+             "forbidden local name (for paths through history events also with a namespace-free event before / after the event on the path); all other namespace fields hold allowed names so that 'here only' is not vacuous. Wiring level: real "
              "ClusterConnection with namespace allow-list and mapping: every unary method with a namespace path x six name classes x header; "
              "ListNamespaces with every subset of three namespaces returns exactly the allowed ones (translated), order kept.",
         note="Empty namespace fields are not asserted either way (the statement speaks of requests that name a different namespace).",
@@ -172,8 +187,10 @@ CLAIMED = {
         text="Bounded-exhaustive enumeration: for every down-convertible root type every structural path from the descriptors (oneofs, "
              "repeated fields, History events, commands, mutable-state snapshots; each type at most twice) to a field of type Failure that "
              "the legacy schema also knows, x chain depth 1..10 (invalid UTF-8 exactly at that depth: must be repaired, result equals the "
-             "sanitised reference, every string valid) and 11 (error or correct repair); plus all failure messages of the fully populated "
-             "message at once. Paths the legacy schema lacks are counted and listed, not asserted.",
+             "sanitised reference, every string valid) and 11 (error or correct repair); the same at depth 1-2 with a failure-free sibling "
+             "element before / after the repaired one in every repeated field on the way; plus all failure messages of the fully populated "
+             "message at once; the conversion tables must pair every type with the legacy type of the same name. Paths the legacy schema "
+             "lacks are counted and listed, not asserted.",
         note="Same reference and domain restriction as C17.",
         technique="bounded-exhaustive enumeration of (type, path, depth) against a wire-level reference",
         design_ref="5/C18", engine="B-enum"),
@@ -186,9 +203,12 @@ CLAIMED = {
              "credential {valid, valid chain with wrong name, self-signed, other CA, expired, wrong usage} x TLS version; CA bundle variants "
              "at configuration time; two configurations with different CAs in one process. Success = handshake plus one application byte in "
              "each direction, observed from both ends. Wiring: a real ClusterConnection whose tcpServer.tls and tcpClient.tls blocks differ - "
-             "both TCP listeners x peer credentials, and the outgoing client against a TLS fake cluster with valid / foreign certificates.",
-        note="The mux receiver/establisher wrap connections with the same two configs (tls.Server / tls.Client); their accept/dial code is not "
-             "exercised here.",
+             "both TCP listeners x peer credentials, and the outgoing client against a TLS fake cluster with valid / foreign certificates; "
+             "the mux listener (muxAddressInfo.tls, verification on / skip) x peer credentials judged by a yamux ping over the TLS "
+             "connection, and the mux establisher against a TLS listener presenting valid / foreign / self-signed certificates. Client "
+             "configuration shapes that leave out the server name or the CA file while verification is not switched off are either "
+             "refused or still refuse every server that does not chain to a trusted CA.",
+        note="Certificates are minted at run time; handshakes run on loopback TCP.",
         technique="exhaustive cross product of credentials x configurations x roles on real TLS handshakes",
         design_ref="5/C19", engine="B-enum"),
     "C08": dict(
@@ -198,7 +218,13 @@ CLAIMED = {
              "start is a scheduling point; in one synctest bubble per schedule exactly one goroutine runs at a time and the explorer "
              "enumerates depth-first EVERY schedule with at most 2 (thorough 3) preemptions. Scenarios: old sender's exit path (close, "
              "UnregisterShard, RemoveRemoteSendChan) || new sender's entry path || a deliverer; three successive incarnations; old receiver's "
-             "cleanup || new receiver's entry (TerminatePreviousLocalReceiver...) || an ack deliverer; all streams end. Oracle at quiescence: "
+             "cleanup || new receiver's entry (TerminatePreviousLocalReceiver...) || an ack deliverer; a peer's ownership announcement (real "
+             "NotifyMsg) || the local re-registration; all streams end. Third part: the REAL routing handlers (streamRouting -> "
+             "proxyStreamSender/Receiver.Run) under the scheduler with overlapping incarnations - a target / a source reconnects while its "
+             "old stream is alive, a source reconnects and the proxy's stream open fails - and a differential oracle: after the reconnect the "
+             "same streams are alive as before it, so every table of the shard manager must hold entries for the same shards; after all "
+             "streams ended every table is empty (missing receiver-side entries are attributed to their cause through the recorded registry "
+             "operations). Oracle at quiescence: "
              "the newest live incarnation owns the shard and its channels/cancel function/active-receiver entry, every delivery reported true "
              "is in exactly one channel, no panic escapes, no deadlock, and after all streams ended every table is empty. A violating "
              "schedule is re-executed before it is reported. Two genuine defects of the receiver cleanup are recorded as known findings.",
@@ -209,7 +235,8 @@ CLAIMED = {
         design_ref="5/C08", engine="A-micro"),
     "C09": dict(
         level="model_checking",
-        text="Convergence: explicit-state BFS (state = action path replayed on fresh instances, de-duplicated on a canonical key in which "
+        text="Convergence: explicit-state BFS (from the initial state and from a preset state in which one instance already owns every shard; "
+             "state = action path replayed on fresh instances, de-duplicated on a canonical key in which "
              "instants are replaced by their rank) over 2-3 real shardManagerImpl instances driven at the memberlist delegate seam: register / "
              "unregister claims, and every order, delay and single duplication of the resulting announcements (real NotifyMsg), of state "
              "snapshots (real LocalState / MergeRemoteState) and of leave notifications (real NotifyLeave). From EVERY state the system is "
@@ -237,9 +264,14 @@ CLAIMED = {
              "permit minted) and a shutdown phase (manager closed, table empty, every yamux session and every connection handed over closed, "
              "no goroutine left). Micro: the provider loop, AddConnection/unregisterMux and session cleanup under the cooperative scheduler "
              "with a peer death / lifetime cancellation taken at every scheduling point of the connect step (all schedules with <=2 "
-             "preemptions, sharded over worker processes), followed by the same healing/shutdown contracts.",
-        note="Connections come from a harness connProvider: the TCP dial/accept code of establisher.go/receiver.go (backoff.ThrottleRetry, "
-             "listener) is not exercised. yamux internals run free in virtual time.",
+             "preemptions, sharded over worker processes), followed by the same healing/shutdown contracts. Two provider families at both "
+             "levels: NewMuxProvider over a harness connProvider (incl. a failing yamux setup), and the real NewMuxEstablisherProvider / "
+             "NewMuxReceiverProvider (their connection providers, backoff.ThrottleRetry, the listener-closing goroutine, their yamux "
+             "configuration) over an in-memory network that replaces net.DialTimeout / net.Listen (rewriter rule net), with a scheduling "
+             "point between the network handing over a connection and Dial / Accept returning.",
+        note="The kernel's TCP stack and TLS wrapping of the mux connections are not exercised here (C19 drives the TLS side on loopback "
+             "TCP). yamux internals run free in virtual time; shutdown is given 44 s of virtual time (yamux's keep-alive closes a session "
+             "whose peer is silent).",
         technique="explicit-state BFS over fault sequences + stateless DFS over interleavings (preemption-bounded) on the implementation",
         design_ref="5/C10", engine="A-macro"),
     "C11": dict(
@@ -249,7 +281,11 @@ CLAIMED = {
              "client/server pair in a synctest bubble. After every action: dialable endpoint set == registered sessions, CanMakeCalls iff "
              "non-empty; an RPC succeeds over a live registered session when one exists, fails when none does, and resumes after a new "
              "session appears. Micro: AddConnection || unregisterMux || MultiClientConn.UpdateState under the cooperative scheduler while "
-             "the first peer dies (all schedules with <=2 preemptions, sharded): at quiescence the dialable set equals the registered set.",
+             "the first peer dies (all schedules with <=2 preemptions, sharded): at quiescence the dialable set equals the registered set. "
+             "Second macro family: the manager built by the real NewGRPCMuxManager (mux-client definition: real establisher over the "
+             "in-memory network, per-session gRPC server, listener wiring of grpc_mux_manager.go). Environment faults (<=2 per path): a "
+             "session's health state reads Error while it stays up, its next Open fails once (transient yamux failure), the peer's gRPC "
+             "server restarts on the same session (the client redials).",
         note="gRPC and yamux internals run free; an RPC gets 3 tries within 10 s of virtual time before a failure is reported.",
         technique="explicit-state BFS over add/remove/RPC sequences + stateless DFS over lock interleavings on the implementation",
         design_ref="5/C11", engine="A-macro"),
@@ -259,7 +295,10 @@ CLAIMED = {
              "ReplicationStreamObserver in default, LCM and routing mode: each metadata key over a boundary alphabet (int32 limits, the "
              "overflow thresholds of the table-size computation, non-numeric, empty, missing), pairs (thorough: triples) over the boundary "
              "subset, streams kept open or closed, then a well-formed open that must be served (one message relayed each way) with its "
-             "bookkeeping intact, and nothing counted active after all streams ended. The observer's lock calls are rewritten to parking "
+             "bookkeeping intact, and nothing counted active after all streams ended; a stream that nobody ended must not return at once "
+             "without an error (neither served nor rejected). Micro level: ReportStreamValue of several concurrent streams under the "
+             "cooperative scheduler, scheduling points at the grow lock and between taking a counter's address and adding to it (rewriter "
+             "rule atomics): the indexes shown active are exactly those of the streams still open. The observer's lock calls are rewritten to parking "
              "shims so 'lock never released' is detected as a state, worker processes run under a 6 GiB address-space limit so a crash or "
              "runaway allocation is attributed to the history that caused it.",
         note="Trusted: lock shim (TryLock + durable park), worker pool attribution. Alphabet is boundary values, not all int32.",
@@ -272,9 +311,11 @@ CLAIMED = {
              "discard and aggregate-then-discard operations up to the depth bound from initial capacities "
              "-1,0,1,2,3,4, states de-duplicated on the canonical ring content; after every transition the ring read "
              "in order must equal a plain slice model and aggregation at every watermark below, inside and above "
-             "the stored range must equal the per-shard maximum over the model. Exhaustive within the bound.",
-        note="Trusted: the slice model (30 lines), Go's map/slice semantics. Bound: depth 5 (quick) / 6-7 (thorough); "
-             "ids strictly increasing (the documented precondition).",
+             "the stored range must equal the per-shard maximum over the model. Exhaustive within the bound; states are kept as operation "
+             "paths (rebuilt by replay), levels are expanded in parallel, the visited set holds digests.",
+        note="Trusted: the slice model (30 lines), Go's map/slice semantics. Bound: quick depth 5 with id gaps {1,2}; thorough three "
+             "completed configurations (depth 6 gaps {1,2}; depth 5 gaps {1,2,3}; depth 8 contiguous ids), state cap 12 million per "
+             "configuration; ids strictly increasing (the documented precondition).",
         technique="explicit-state BFS of operation sequences on the implementation vs. reference model",
         design_ref="5/C05",
         engine="B-seq",
